@@ -173,6 +173,61 @@ static void case_to_znx64_b(uint64_t m, int variant /*0 native table,1 generic t
   case_end(1);
 }
 
+// dense near-tie sweep: every binade of the domain, k + 1/2 -+ 1..3 ulp, for every variant
+static void case_to_znx64_sweep(int variant, int e, int dexp, unsigned rep) {
+  static const char* vn[] = {"dispatch-native", "dispatch-generic", "ref", "avx2_bnd50_fma", "avx2_bnd63_fma"};
+  char key[96];
+  snprintf(key, sizeof key, "reim_to_znx64|%s,near-tie-sweep", vn[variant]);
+  if (!case_begin(key, "binade=2^%d divisor=2^%d rep=%u", e, dexp, rep)) return;
+  rng_t* r = crng();
+  const uint64_t m = 512, n = 2 * m;
+  const double d = ldexp(1.0, dexp);
+  const int wide = variant != 3 && e >= 49;
+  gbuf_t gi, go;
+  double* x = gb_alloc(&gi, n * 8, 8, 8 * (rep % 8), 4096);
+  int64_t* out = gb_alloc(&go, n * 8, 8, 8 * ((rep + 5) % 8), 4096);
+  double* ratio = malloc(n * 8);
+  for (uint64_t i = 0; i < n; i++) {
+    double k = e < 0 ? 0.0 : floor(ldexp(1.0 + rng_unit(r), e));
+    double v = k + 0.5;
+    if (v == k) v = k;  // beyond 2^52 there is no half
+    int steps = 1 + (int)(i % 3);
+    for (int s2 = 0; s2 < steps; s2++) v = (i & 4) ? nextafter(v, 0) : nextafter(v, INFINITY);
+    if (i % 16 == 15) v = k + 0.5;  // exact tie: either neighbour accepted
+    ratio[i] = (i & 8) ? -v : v;
+    x[i] = ratio[i] * d;
+  }
+  set_dispatch(variant != 1);
+  REIM_TO_ZNX64_PRECOMP* p = new_reim_to_znx64_precomp((uint32_t)m, d, (wide || variant == 4 || variant == 2) ? 63 : 50);
+  set_dispatch(1);
+  switch (variant) {
+    case 0: case 1: reim_to_znx64(p, out, x); break;
+    case 2: reim_to_znx64_ref(p, out, x); break;
+    case 3: reim_to_znx64_avx2_bnd50_fma(p, out, x); break;
+    default: reim_to_znx64_avx2_bnd63_fma(p, out, x);
+  }
+  uint64_t nbad = 0;
+  for (uint64_t i = 0; i < n; i++) {
+    q_t diff = fabsq((q_t)out[i] - (q_t)x[i] / (q_t)d);
+    if (diff > (q_t)0.5 && nbad++ < 2) {
+      const int pred_half = fabs(ratio[i]) == nextafter(0.5, 0);
+      viol(pred_half ? "oracle:x/d=+-pred(1/2)" : "oracle", "reim_to_znx64[%s] near-tie sweep: d=2^%d x/d=%a -> %" PRId64 ": |r - x/d| = 1/2 + %.3g", vn[variant], dexp, ratio[i], out[i], (double)(diff - (q_t)0.5));
+    }
+  }
+  long wh;
+  if (gb_check(&gi, &wh) || gb_check(&go, &wh)) viol("canary", "reim_to_znx64[%s] accessed outside its buffers (%ld)", vn[variant], wh);
+  free(p);
+  free(ratio);
+  gb_free(&gi);
+  gb_free(&go);
+  cnt("values_checked", n);
+  cnt("near_tie_sweep_values", n);
+  cnt("rounding_exercised", n);
+  cnt("conv:reim_to_znx64", n);
+  sample("1024 near-ties in binade 2^%d", e);
+  case_end(1);
+}
+
 static void case_to_znx64(uint64_t m, int variant, int wide, int dexp, unsigned rep) { case_to_znx64_b(m, variant, wide ? 63 : 50, dexp, rep); }
 
 // ---------------------------------------------------------------- reim_to_tnx (double -> torus double)
@@ -358,6 +413,10 @@ void run_C14(void) {
         }
     }
   }
+  // dense near-tie sweeps: every binade of each variant's domain
+  for (int v = 0; v < 5; v++)
+    for (int e = -2; e <= (v == 3 ? 48 : 50); e++)
+      for (unsigned rep = 0; rep < (th ? 40u : 2u); rep++) case_to_znx64_sweep(v, e, DIV_EXP[(unsigned)(e + 2 + (int)rep) % ARRAY_LEN(DIV_EXP)], rep);
   // every declared bound 1..64 through the table dispatch (both sides of the fast/wide selection at 50)
   for (unsigned b = 1; b <= 64; b++)
     for (size_t mi = 0; mi < 4; mi++) {
